@@ -45,7 +45,7 @@ def post_merge(counters, extra):
 
 
 def plan(tier, seed):
-    k = 3 if tier == "quick" else 40
+    k = 4 if tier == "quick" else 120
     return [{"name": "s%d" % i, "seed": seed, "shard": i, "draws": k, "extra_path": [STANDINS]} for i in range(NSHARDS)]
 
 
